@@ -33,6 +33,40 @@ type validateArgs struct {
 	// never end with a Loader that keeps answering (a stack overflow that kills the process) then shows as an overrun instead.
 	// 0 (the default): the Loader always answers, as before.
 	MaxLoads int `json:"maxLoads"`
+	// RawDefaults: [{"path": ["p","q"], "text": "\n  {\"a\": 1}"}, …] — a Schema BUILT IN GO can hold, in its Default field (a
+	// json.RawMessage, kept verbatim), any spelling of a JSON value: text that begins on its own line, is indented, has blanks
+	// after ':' and ','. Unmarshal of a document never yields those (the decoder hands a RawMessage the value without the
+	// surrounding whitespace, and this harness sends documents compacted). After the root document is unmarshaled, the Default of
+	// the subschema reached from the root through `properties` p, then q, … (empty path: the root) is replaced by the bytes of
+	// "text" as they are. The text must be the default the document declares there, up to insignificant whitespace (checked with
+	// json.Compact) — so the document still says what the schema means, and the model and the judge read the document. Absent
+	// (the default): nothing changes.
+	RawDefaults []rawDefault `json:"rawDefaults"`
+}
+
+type rawDefault struct {
+	Path []string `json:"path"`
+	Text string   `json:"text"`
+}
+
+// applyRawDefaults respells the defaults named by rds (see validateArgs.RawDefaults).
+func applyRawDefaults(root *jsonschema.Schema, rds []rawDefault) error {
+	for _, rd := range rds {
+		s := root
+		for _, name := range rd.Path {
+			if s == nil || s.Properties[name] == nil {
+				return fmt.Errorf("rawDefaults: no property %q on the path %q", name, rd.Path)
+			}
+			s = s.Properties[name]
+		}
+		var want, got bytes.Buffer
+		if s.Default == nil || json.Compact(&want, s.Default) != nil || json.Compact(&got, []byte(rd.Text)) != nil ||
+			!bytes.Equal(want.Bytes(), got.Bytes()) {
+			return fmt.Errorf("rawDefaults: %q is not a spelling of the declared default %s", rd.Text, s.Default)
+		}
+		s.Default = json.RawMessage(rd.Text)
+	}
+	return nil
 }
 
 type universe struct {
@@ -53,6 +87,9 @@ func buildUniverse(a *validateArgs) (*universe, error, error) {
 	u := &universe{root: new(jsonschema.Schema)}
 	if err := json.Unmarshal(txt, u.root); err != nil {
 		return nil, err, nil
+	}
+	if err := applyRawDefaults(u.root, a.RawDefaults); err != nil {
+		return nil, nil, err
 	}
 	docs := map[string]json.RawMessage{}
 	for _, d := range a.Docs {
